@@ -1274,7 +1274,33 @@ fn compare_wallets(pre: &Obs, post: &Obs, eff: &Effect, a: &Action, names: &Name
     }
 }
 
+/// C11 consequence, judged on observed records only: no purchase takes more than half of any post-fee
+/// fungible amount in royalties, and no escrowed amount is reduced to zero
+fn check_halves(pre: &Obs, post: &Obs, a: &Action, f: &mut Vec<Finding>) {
+    let Act::Buy { lid, bid } = &a.act else { return };
+    let (Some(l), Some(b)) = (pre.listing_by_id(*lid), pre.bucket_at(&a.sender, *bid)) else { return };
+    let d = pre.fee_denom();
+    let g1 = spec::minus_fee(&l.goods, &spec::fee_of(&l.goods, d));
+    let f1 = spec::minus_fee(&b.funds, &spec::fee_of(&b.funds, d));
+    let la = post.listing_at(&a.sender, *lid);
+    let ba = post.bucket_at(&l.key_owner, *bid);
+    for (side, before, after) in [("goods", &g1, la.map(|x| &x.goods)), ("bucket", &f1, ba.map(|x| &x.funds))] {
+        let Some(after) = after else { continue };
+        for (k, v) in &before.fung {
+            let now = after.get(k);
+            if now == 0 || now.saturating_mul(2) < *v {
+                f.push(Finding::new(
+                    "C11.amount_halved",
+                    side,
+                    format!("buy_listing: {} of the {side} went from {v} (post-fee) to {now}: more than half was taken", k.label()),
+                ));
+            }
+        }
+    }
+}
+
 pub fn compare_effect(pre: &Obs, post: &Obs, eff: &Effect, a: &Action, names: &Names, f: &mut Vec<Finding>) {
+    check_halves(pre, post, a, f);
     if let Act::Buy { lid, bid } = &a.act {
         // the swap files the bucket under the seller: a bucket the seller already holds under the
         // same id (possible only after an id was accepted twice) must not be destroyed by it
